@@ -243,9 +243,11 @@ def cmd_check(prop, tier, nruns=None, survey=False):
         'wall_s': round(wall, 2),
         'violations': 1 if exit_code == engine.EXIT_VIOLATION else 0,
     }
-    os.makedirs(os.path.join(env.VERIF_DIR, 'evidence'), exist_ok=True)
-    with open(os.path.join(env.VERIF_DIR, 'evidence', f'{prop}.json'), 'w') as f:
-        json.dump(ev, f, indent=1, sort_keys=True, default=repr)
+    if os.path.realpath(env.REPO) == '/repo':
+        # runs against scratch copies (mutants) never touch the evidence files
+        os.makedirs(os.path.join(env.VERIF_DIR, 'evidence'), exist_ok=True)
+        with open(os.path.join(env.VERIF_DIR, 'evidence', f'{prop}.json'), 'w') as f:
+            json.dump(ev, f, indent=1, sort_keys=True, default=repr)
     if exit_code == engine.EXIT_OK:
         _print(f'OK property={prop} tier={tier} runs={done} steps={steps} '
                f'distinct_nontrivial={len(nontrivial_digests)} rejected={rej} '
